@@ -53,6 +53,7 @@ import (
 	"fmt"
 	"go/ast"
 	"go/parser"
+	"go/printer"
 	"go/token"
 	"os"
 	"os/exec"
@@ -689,7 +690,33 @@ func c08AstFacts() {
 	c08stats["ast_files_scanned"] = files
 	locked, unlocked, shapeOk := c08SaverLockFacts()
 	emit(J{"kind": "astfact", "global_write_sites": sites, "files_scanned": files,
-		"saver_locked": locked, "saver_unlocked": unlocked, "saver_shape_recognised": shapeOk})
+		"saver_locked": locked, "saver_unlocked": unlocked, "saver_shape_recognised": shapeOk,
+		"runner_run_statements": c08RunnerRunShape()})
+}
+
+// The statements of scenario.Runner.run, printed: the alias translator takes its clones through the accessor
+// Runner.VerifPrepareRun, which repeats the set-up statements of run -- this fact pins what it repeats (every run
+// anneals a DeepClone() of the configured annealer, set up by assignNewRunId and wireObservers, nothing else).
+func c08RunnerRunShape() []string {
+	fset := token.NewFileSet()
+	f, err := parser.ParseFile(fset, "internal/pkg/scenario/Runner.go", nil, 0)
+	if err != nil {
+		return []string{"<cannot parse Runner.go: " + err.Error() + ">"}
+	}
+	for _, d := range f.Decls {
+		fd, ok := d.(*ast.FuncDecl)
+		if !ok || fd.Recv == nil || fd.Name.Name != "run" || fd.Body == nil {
+			continue
+		}
+		res := []string{}
+		for _, st := range fd.Body.List {
+			var sb strings.Builder
+			printer.Fprint(&sb, fset, st)
+			res = append(res, strings.Join(strings.Fields(sb.String()), " "))
+		}
+		return res
+	}
+	return []string{"<Runner.run not found>"}
 }
 
 // Lock discipline of the one object all runs share by design and that holds mutable state: every
